@@ -181,6 +181,11 @@ func runRulesTrace(e *Env, r *Report, recs []any, prop string) {
 		return
 	}
 	r.Traces += len(recs)
+	for i, p := range tr.PrintsWithPrefix("DRIFT") {
+		if i < 3 {
+			r.Drift = append(r.Drift, tail(p, 500))
+		}
+	}
 	for _, p := range tr.PrintsWithPrefix("VIOL") {
 		var x struct {
 			P    string          `json:"p"`
@@ -483,10 +488,84 @@ func checkC11(e *Env, r *Report) {
 		}
 		recs = append(recs, map[string]any{"ev": "sort", "id": "sort:mixed:" + strings.Join(ids, " | "), "results": results, "resorted": resorted})
 	}
+	// string order (StrOrder.tla): complete sign matrices of rules that differ in one string only
+	recs = append(recs, strOrderEvents(e, r, rng)...)
 	r.Coverage["universes"] = len(kindMenus)
 	r.Coverage["trace_events"] = len(recs)
 	r.Sample(map[string]any{"universe": "file", "rules": kindMenus["file"][:6]})
 	runRulesTrace(e, r, recs, "C11")
+}
+
+var strChars = map[string]string{"sp": " ", "ex": "!", "dot": ".", "d1": "1", "d2": "2", "B": "B", "b": "b", "c": "c", "e1": "\u00e8", "e2": "\u00e9"}
+var strCharNames = []string{"sp", "ex", "dot", "d1", "d2", "B", "b", "c", "e1", "e2"}
+
+func strOrderEvents(e *Env, r *Report, rng *rand.Rand) []any {
+	// the model itself is a total order on the universe
+	st, err := e.RunTLC(TLCOpts{Module: "MC_StrOrder", Workers: 4, Timeout: 20 * time.Minute})
+	if err != nil || !st.Healthy() {
+		r.Drift = append(r.Drift, "MC_StrOrder (design check of the string order) did not pass")
+	} else {
+		r.AddTLC(st)
+	}
+	strs := [][]string{{}}
+	for _, a := range strCharNames {
+		strs = append(strs, []string{a})
+		for _, b := range strCharNames {
+			strs = append(strs, []string{a, b})
+		}
+	}
+	extra := 30
+	if e.Tier == "thorough" {
+		extra = 90
+	}
+	for i := 0; i < extra; i++ {
+		n := 3 + rng.Intn(2)
+		s := []string{}
+		for k := 0; k < n; k++ {
+			s = append(s, strCharNames[rng.Intn(len(strCharNames))])
+		}
+		strs = append(strs, s)
+	}
+	conc := func(s []string) string {
+		var b strings.Builder
+		for _, c := range s {
+			b.WriteString(strChars[c])
+		}
+		return b.String()
+	}
+	carriers := map[string]func(v string) aa.Rule{
+		"file path":     func(v string) aa.Rule { return &aa.File{Path: "/d/x" + v, Access: []string{"r"}} },
+		"signal peer":   func(v string) aa.Rule { return &aa.Signal{Access: []string{"send"}, Peer: "p" + v} },
+		"dbus name":     func(v string) aa.Rule { return &aa.Dbus{Access: []string{"bind"}, Bus: "session", Name: "org.x" + v} },
+		"include path":  func(v string) aa.Rule { return &aa.Include{Path: "abstractions/x" + v, IsMagic: true} },
+		"mount point":   func(v string) aa.Rule { return &aa.Mount{MountPoint: "/mnt/x" + v} },
+		"change_profile": func(v string) aa.Rule { return &aa.ChangeProfile{ProfileName: "x" + v} },
+	}
+	names := []string{}
+	for k := range carriers {
+		names = append(names, k)
+	}
+	sort.Strings(names)
+	res := []any{}
+	for _, cn := range names {
+		mk := carriers[cn]
+		n := len(strs)
+		rules := make([]aa.Rule, n)
+		for i, s := range strs {
+			rules[i] = mk(conc(s))
+		}
+		m := make([][]int, n)
+		for i := 0; i < n; i++ {
+			m[i] = make([]int, n)
+			for j := 0; j < n; j++ {
+				m[i][j] = sgn(rules[i].Compare(rules[j]))
+			}
+		}
+		res = append(res, map[string]any{"ev": "strcmp", "id": "strcmp:" + cn, "strs": strs, "m": m})
+	}
+	r.Coverage["string_order_universe"] = len(strs)
+	r.Coverage["string_order_carriers"] = len(names)
+	return res
 }
 
 // ruleIdentity: the rule without its comment (rules that differ only in a comment compare
